@@ -117,6 +117,20 @@ func rulesC18(c *Ctx) {
 				same = false
 			}
 		}
+		// the slot is a *time.Timer per notification name; a debouncer of another design (a struct with a sequence number, a
+		// channel) is not something these three shape tests can judge
+		slotIsTimer := false
+		if m, isMap := pend.Type().Underlying().(*types.Map); isMap {
+			if pt, isP := m.Elem().(*types.Pointer); isP {
+				if n := namedOf(pt.Elem()); n != nil && n.Obj().Pkg() != nil && n.Obj().Pkg().Path() == "time" && n.Obj().Name() == "Timer" {
+					slotIsTimer = true
+				}
+			}
+		}
+		if !slotIsTimer && !(same && arm && rearm) {
+			c.Undecided("changeAndNotify:debouncer", f, nil, "pendingNotifications no longer holds *time.Timer values (%s): the arm / re-arm discipline of the new design is not decided here", pend.Type())
+			panic(abortRule{})
+		}
 		c.Check(same, "changeAndNotify:rearm-unconditional", f, nil, "the pending timer is Reset under exactly the conditions under which an idle slot is armed (apart from the nil test): arm %v, re-arm %v", keysOf(armSet), keysOf(rearmSet))
 		c.Check(arm, "changeAndNotify:arm-when-idle", f, nil, "with no timer pending, time.AfterFunc(notificationDelay, notifySessions(name)) is stored in the slot for that name, under s.mu")
 		c.Check(rearm, "changeAndNotify:rearm-when-pending", f, nil, "with a timer pending it is Reset under s.mu (the last change of a burst always has a timer in front of it)")
@@ -374,7 +388,11 @@ func rulesC18(c *Ctx) {
 				})
 			}
 		}
-		c.Check(okU, "ResourceUpdated:only-subscribers-of-uri", ru, nil, "the recipients are exactly resourceSubscriptions[params.URI], read under s.mu")
+		if _, isMap := rs.Type().Underlying().(*types.Map); !isMap && !okU {
+			c.Undecided("ResourceUpdated:only-subscribers-of-uri", ru, nil, "the subscription table is no longer a map on the Server (%s): who receives resources/updated is decided inside that type, which this rule does not look into", rs.Type())
+		} else {
+			c.Check(okU, "ResourceUpdated:only-subscribers-of-uri", ru, nil, "the recipients are exactly resourceSubscriptions[params.URI], read under s.mu")
+		}
 		nOther := 0
 		for _, s := range ru.FieldRefs(ru.Body, c.Field(pM, "Server", "sessions"), false) {
 			_ = s
@@ -620,7 +638,7 @@ func rulesC18(c *Ctx) {
 
 	c.Rule("R-C18-6", "a cache fill that follows an RPC is conditional on the cache's invalidation generation read before the RPC; every notification-driven invalidation moves the generation", func() {
 		hs := c.FnObj(pM, "", "handleSend")
-		c.Must(c.P.LookupFuncObj(pM, "methodCache", "generation") != nil && c.P.LookupFuncObj(pM, "methodCache", "putIfCurrent") != nil, "methodCache:generation-guard-exists", nil, nil, "the client cache has an invalidation generation (generation / putIfCurrent): without it a result fetched across an invalidation is cached")
+		c.Must(c.P.LookupFuncObj(pM, "methodCache", "putIfCurrent") != nil, "methodCache:generation-guard-exists", nil, nil, "the client cache has an invalidation generation (generation / putIfCurrent): without it a result fetched across an invalidation is cached")
 		genObj := c.FnObj(pM, "methodCache", "generation")
 		pic := c.FnObj(pM, "methodCache", "putIfCurrent")
 		put := c.FnObj(pM, "methodCache", "put")
